@@ -17,6 +17,12 @@ D = decimal.Decimal
 ASSUMPTIONS = [
     'AST walk order of placeholders equals their textual order (holds for every BQL construct; the model keeps both)',
     'TypeError for a wrong parameter container (mapping vs sequence) is compared as an outcome kind, not judged',
+    'translator tie (C09_source_*): PyMini (Model/PyMini.v) is the semantics of the translated Compiler.compile / '
+    '_placeholder / compiler.compile / Connection wrappers; harness/vf/src_api.py desugars raise, set/dict comprehensions, '
+    'sorted(key=lambda), isinstance, f-strings and subscripts into primitives whose meaning is fixed in Model/PrimsApi.v '
+    '(trusted): a statement is the list of nodes walk() yields, id(node) is the node\'s source position (two placeholders '
+    'never share one), the exception kind of a raise is a function of the class and the leading constant text of the message, '
+    'message texts and methods of other objects (cursor.execute, Compiler.compile seen from compiler.compile) are uninterpreted',
 ]
 IMPORTS = c01.IMPORTS + ['Model.Params']
 MARK = '\x00'
@@ -728,6 +734,12 @@ def run(tier, rng):
         'distinct_cases': distinct, 'workload_errors': bad,
     }
     return {'coverage': cov, 'violations': violations}
+
+
+def generate():
+    """translator tie: regenerate coq/Gen/SrcParams.v from the source of the imported code (py2mini + src_api)"""
+    from . import gen_src
+    return gen_src.generate('params')
 
 
 def replay(rec):
